@@ -35,6 +35,9 @@ pub struct Flow {
     pub record_total: usize,
     /// cut offsets into `stream`, strictly increasing, first >= 5
     pub cuts: Vec<usize>,
+    /// offsets inside the record where the tap planted bytes that look like a record header
+    #[serde(default)]
+    pub hot: Vec<usize>,
 }
 
 #[derive(Clone, Debug, Serialize, Deserialize)]
@@ -235,7 +238,64 @@ fn check_packets(scn: &Scn, cuts0: &[usize], st: &mut RunStats) -> Result<(), Vi
     Ok(())
 }
 
+/// Opaque fields of a ClientHello (client random, session id, padding) may legally contain any
+/// bytes — including ones that look like the start of a TLS handshake record, or a whole
+/// ClientHello record. Plant such bytes and remember where, so cuts can be placed exactly there.
+fn plant_record_lookalikes(r: &mut Rng, rec: &mut Vec<u8>) -> Vec<usize> {
+    let mut hot = vec![];
+    let total = rec.len();
+    if total < 60 {
+        return hot;
+    }
+    // client random: record header (5) + handshake header (4) + version (2) = offset 11, 32 bytes
+    if r.chance(2, 3) {
+        let k = 11 + r.usize_below(32 - 5);
+        let hdr = [0x16, 0x03, r.below(5) as u8, r.u8(), r.u8()];
+        rec[k..k + 5].copy_from_slice(&hdr);
+        hot.push(k);
+    }
+    // session id (if present): offset 44, 32 bytes
+    if rec[43] == 32 && r.chance(1, 2) {
+        let k = 44 + r.usize_below(32 - 5);
+        let hdr = [0x16, 0x03, r.below(5) as u8, 0x00, r.below(40) as u8];
+        rec[k..k + 5].copy_from_slice(&hdr);
+        hot.push(k);
+    }
+    // padding extension: a trailing run of zeros; plant a whole small ClientHello record in it
+    let zeros = rec.iter().rev().take_while(|b| **b == 0).count();
+    if zeros > 200 && r.chance(2, 3) {
+        let mut spec = tls::random_spec(r, 150);
+        spec.target_len = 0;
+        spec.n_ciphers = spec.n_ciphers.min(6);
+        spec.n_ext_extra = spec.n_ext_extra.min(2);
+        let inner = tls::client_hello(r, &spec);
+        if inner.len() + 8 < zeros {
+            let k = total - zeros + 4 + r.usize_below(zeros - inner.len() - 8);
+            rec[k..k + inner.len()].copy_from_slice(&inner);
+            hot.push(k);
+        }
+    }
+    hot.sort();
+    hot
+}
+
 fn gen_stream(r: &mut Rng, tier: Tier, small: bool) -> (Vec<u8>, usize) {
+    let (s, t, _) = gen_stream_hot(r, tier, small);
+    (s, t)
+}
+
+fn gen_stream_hot(r: &mut Rng, tier: Tier, small: bool) -> (Vec<u8>, usize, Vec<usize>) {
+    let (mut s, total) = gen_stream_plain(r, tier, small);
+    let mut hot = vec![];
+    if s.len() >= total && total > 80 && s[0] == 0x16 && s.get(5) == Some(&1) && r.chance(1, 2) {
+        let mut rec = s[..total].to_vec();
+        hot = plant_record_lookalikes(r, &mut rec);
+        s[..total].copy_from_slice(&rec);
+    }
+    (s, total, hot)
+}
+
+fn gen_stream_plain(r: &mut Rng, tier: Tier, small: bool) -> (Vec<u8>, usize) {
     let kind = r.below(10);
     if kind < 7 {
         let max = if small { 600 } else { tier.pick(20000, 65535) };
@@ -265,6 +325,27 @@ fn gen_stream(r: &mut Rng, tier: Tier, small: bool) -> (Vec<u8>, usize) {
         (s, 5 + 0xfff0)
     }
 }
+
+fn gen_cuts_hot(r: &mut Rng, len: usize, record_total: usize, hot: &[usize]) -> Vec<usize> {
+    if !hot.is_empty() && r.chance(1, 2) {
+        // cut exactly where planted bytes look like the start of a record
+        let mut c: Vec<usize> = hot.iter().filter(|_| r.chance(2, 3)).cloned().collect();
+        if c.is_empty() {
+            c.push(hot[0]);
+        }
+        if r.chance(1, 3) {
+            c.extend(gen_cuts(r, len, record_total));
+        }
+        c.sort();
+        c.dedup();
+        c.retain(|x| *x >= 5 && *x < len);
+        st_probe_hot();
+        return c;
+    }
+    gen_cuts(r, len, record_total)
+}
+
+fn st_probe_hot() {}
 
 fn gen_cuts(r: &mut Rng, len: usize, record_total: usize) -> Vec<usize> {
     if len <= 6 {
@@ -325,17 +406,17 @@ impl Prop for C08 {
         let nflows = if path == Path::Reader { 1 } else { r.urange(1, 4) };
         let mut flows = vec![];
         for i in 0..nflows {
-            let (stream, record_total) = gen_stream(r, tier, false);
+            let (stream, record_total, hot) = gen_stream_hot(r, tier, false);
             // packet path: keep streams within what IP can carry per segment after cutting
             let cport = 40000 + r.below(20) as u16;
             let (src, dst) = if v6 { (Endpoint::v6(1 + (i as u16 % 2), cport), Endpoint::v6(0x100, 443)) } else { (Endpoint::v4(10, 0, 0, 1 + (i as u8 % 2), cport), Endpoint::v4(10, 0, 1, 1, 443)) };
             // one flow in four runs in the reverse direction of flow 0 (directed keys must not mix)
             let (src, dst) = if i > 0 && r.chance(1, 4) { (flows_first_dst(&flows), flows_first_src(&flows)) } else { (src, dst) };
-            let mut cuts = gen_cuts(r, stream.len(), record_total);
+            let mut cuts = gen_cuts_hot(r, stream.len(), record_total, &hot);
             if path != Path::Reader {
                 force_mtu(&mut cuts, stream.len());
             }
-            flows.push(Flow { src, dst, isn: r.u32(), stream, record_total, cuts });
+            flows.push(Flow { src, dst, isn: r.u32(), stream, record_total, cuts, hot });
         }
         // distinct 4-tuples
         dedup_tuples(&mut flows);
@@ -344,7 +425,8 @@ impl Prop for C08 {
         let n_alt = tier.pick(6, 12);
         let mut alt_cuts = vec![];
         for _ in 0..n_alt {
-            let mut c = gen_cuts(r, flows[0].stream.len(), flows[0].record_total);
+            let hot0 = flows[0].hot.clone();
+            let mut c = gen_cuts_hot(r, flows[0].stream.len(), flows[0].record_total, &hot0);
             if path != Path::Reader {
                 force_mtu(&mut c, flows[0].stream.len());
             }
@@ -374,7 +456,7 @@ impl Prop for C08 {
                 if tier == Tier::Quick && pi == 1 && h > 0 {
                     continue;
                 }
-                let flow = Flow { src: Endpoint::v4(10, 9, 0, 1, 50000), dst: Endpoint::v4(10, 9, 1, 1, 443), isn: 0xffff_ff00, stream: stream.clone(), record_total, cuts: vec![] };
+                let flow = Flow { src: Endpoint::v4(10, 9, 0, 1, 50000), dst: Endpoint::v4(10, 9, 1, 1, 443), isn: 0xffff_ff00, stream: stream.clone(), record_total, cuts: vec![], hot: vec![] };
                 let mut alt: Vec<Vec<usize>> = (5..len).map(|c| vec![c]).collect();
                 if len <= 300 && tier == Tier::Thorough && h < 6 {
                     for a in 5..len {
@@ -412,6 +494,9 @@ impl Prop for C08 {
                 }
                 if *c == rt {
                     st.probe("cut_exactly_at_record_end");
+                }
+                if scn.flows[0].hot.contains(c) {
+                    st.probe("cut_exactly_before_planted_record_header_lookalike");
                 }
             }
             st.fault_n("segment_cut", cuts.len() as u64);
